@@ -6,6 +6,7 @@ import (
 	"go/token"
 	"go/types"
 	"log"
+	"sort"
 
 	"github.com/goghcrow/go-ast-matcher"
 	"github.com/goghcrow/go-imports"
@@ -185,7 +186,51 @@ func (r *rewriter) rewriteFile(f *loader.File, printer FilePrinter) {
 	// clear free-floating comments, preventing confusing position of comments
 	// https://github.com/golang/go/issues/20744
 	f.File.Comments = r.comments
+	if len(r.comments) > 0 {
+		// with an explicit comment list the printer ignores the comments that
+		// hang on nodes: keep the doc comments (they can be directives such as
+		// //go:embed or //go:noinline) and the attached sources of generator decls
+		f.File.Comments = append(f.File.Comments, nodeComments(f.File)...)
+		sort.SliceStable(f.File.Comments, func(i, j int) bool {
+			return f.File.Comments[i].Pos() < f.File.Comments[j].Pos()
+		})
+	}
 	printer(f.Filename, f)
+}
+
+// nodeComments collects the comment groups attached to declarations.
+func nodeComments(file *ast.File) (groups []*ast.CommentGroup) {
+	add := func(g *ast.CommentGroup) {
+		if g != nil && len(g.List) > 0 {
+			groups = append(groups, g)
+		}
+	}
+	add(file.Doc)
+	ast.Inspect(file, func(n ast.Node) bool {
+		switch n := n.(type) {
+		case *ast.GenDecl:
+			add(n.Doc)
+		case *ast.FuncDecl:
+			add(n.Doc)
+			return false
+		case *ast.ImportSpec:
+			add(n.Doc)
+			add(n.Comment)
+		case *ast.ValueSpec:
+			add(n.Doc)
+			add(n.Comment)
+		case *ast.TypeSpec:
+			add(n.Doc)
+			add(n.Comment)
+		case *ast.Field:
+			add(n.Doc)
+			add(n.Comment)
+		case *ast.FuncLit:
+			return false
+		}
+		return true
+	})
+	return
 }
 
 // ↓↓↓↓↓↓↓↓↓↓↓↓↓↓↓↓↓↓↓↓↓↓ Collect YieldFunc ↓↓↓↓↓↓↓↓↓↓↓↓↓↓↓↓↓↓↓↓↓↓
